@@ -338,7 +338,7 @@ Proof.
         assert (Sd : forall d, In d (deps c t) -> settled c s d).
         { intros d Hin. destruct (N1 d Hin) as (A & P & W). destruct (Hdt d Hin) as [_ Hacc].
           split; intros Hin'.
-          - apply W, stat_some, (inv_acc _ _ _ _ _ Ic). rewrite H. simpl. auto.
+          - apply W, stat_some, (inv_acc _ _ _ _ _ Ic). eapply deciding_pass_acc; eauto.
           - destruct (inv_flight _ _ _ _ _ Ic d Hin') as [E _]. now apply P, stat_some. }
         split; [intros d Hin; now apply Stab, Sd|]. simpl. split.
         -- intros d Hin Hdone. destruct (Cl d) as (_ & _ & N). destruct (N Hdone) as [_ N'].
